@@ -176,7 +176,18 @@ Clauses(c, idx) ==
 
 \* root-cause tags: from the instance and the arguments only
 Tags(c) ==
-  IF Kind = "optgp" THEN {} ELSE
+  IF Kind = "optgp" THEN
+     \* (sampler finding F66) infeasible rows that break nothing but the mass balances, flux space off the
+     \* origin, warm-up = two vertices and their midpoint
+     (IF IsUnitNetwork(I.M) /\ AllFinite(I.M) /\ ZeroVec(I.M) \notin Feasible(I.M)
+      THEN {"origin_not_in_polytope"} ELSE {})
+     \cup (IF SxHomogeneous(I.sx) THEN {"no_fixed_nonzero_flux"} ELSE {})
+     \cup (IF c.raises = "none" /\ c.wmid THEN {"third_warmup_point_is_midpoint_of_the_other_two"} ELSE {})
+     \cup (IF c.raises = "none" /\
+              \A i \in 1..Len(c.rows) : SxInFluxPolytope(I.sx, c.rows[i]) = "no" =>
+                  SxAnd(SxFluxLower(I.sx, c.rows[i]) \cup SxFluxUpper(I.sx, c.rows[i])) # "no"
+           THEN {"only_mass_balance_violated"} ELSE {})
+  ELSE
      (IF Pooled(Cardinality(ReqItems(c)), c.P) THEN {"pooled"} ELSE {"serial"})
   \cup (IF Kind = "lfva" THEN {"loopless"} ELSE {})
   \cup (IF Kind = "lfva" /\ Cycles(I.M) # {} THEN {"model_has_internal_cycle"} ELSE {})
